@@ -33,6 +33,9 @@ type grpcScenario struct {
 	ExecCtx    string   `json:"exec_ctx"` // none cancellable values
 	Stack      []string `json:"stack"`    // retry timeout hedge-1h
 	CancelCall bool     `json:"cancel_call"`
+	// ReplyWithError (server side): a failing handler call returns its reply object along with the error (a partial reply
+	// plus a status), which a gRPC handler may do; both are the call's outcome and pass through together
+	ReplyWithError bool `json:"reply_with_error,omitempty"`
 }
 
 var codeByName = map[string]codes.Code{
@@ -190,6 +193,9 @@ func runGRPC(sc grpcScenario) (violation, sig string) {
 				ctxProblem = "the handler received a different request object"
 			}
 			if err := outcome(ctx); err != nil {
+				if sc.ReplyWithError {
+					return reply, err
+				}
 				return nil, err
 			}
 			return reply, nil
@@ -251,6 +257,9 @@ func runGRPC(sc grpcScenario) (violation, sig string) {
 		if !exhausted && gotErr != lastErr {
 			return fail("grpc-result", "the error %v was not passed through unchanged (got %v)", lastErr, gotErr)
 		}
+		if !exhausted && sc.Side == "server" && sc.ReplyWithError && gotResp != any(reply) {
+			return fail("grpc-result", "the handler returned its reply object together with %v; the error was passed through, the reply was not (got %v)", lastErr, gotResp)
+		}
 		if exhausted && !errors.Is(gotErr, lastErr) && status.Code(errors.Unwrap(gotErr)) != codeByName[lastCode] {
 			return fail("grpc-result", "retries exhausted on %s but the call returned %v", lastCode, gotErr)
 		}
@@ -284,6 +293,7 @@ func TestGRPC(t *testing.T) {
 			}
 		}
 		sc.CancelCall = rapid.IntRange(0, 7).Draw(t, "cancelCall") == 0
+		sc.ReplyWithError = sc.Side == "server" && rapid.Bool().Draw(t, "replyWithError")
 		if v, sig := runGRPC(sc); v != "" {
 			harness.Violation(t, prop, test, sig, sc, "%+v: %s", sc, v)
 		}
